@@ -22,13 +22,13 @@ func TestRegressionAudit16BigIntJSONFormAcceptsWhatItCanNotReadBack(t *testing.T
 	ctx := context.Background()
 
 	for name, v := range map[string]*big.Int{
-		"five (control)":     big.NewInt(5),
-		"zero (control)":     big.NewInt(0),
-		"2^255 (control)":    new(big.Int).Lsh(big.NewInt(1), 255),
-		"2^256-1 (control)":  new(big.Int).Sub(new(big.Int).Lsh(big.NewInt(1), 256), big.NewInt(1)),
-		"negative":           big.NewInt(-5),
-		"2^256 (257 bits)":   new(big.Int).Lsh(big.NewInt(1), 256),
-		"2^300":              new(big.Int).Lsh(big.NewInt(1), 300),
+		"five (control)":    big.NewInt(5),
+		"zero (control)":    big.NewInt(0),
+		"2^255 (control)":   new(big.Int).Lsh(big.NewInt(1), 255),
+		"2^256-1 (control)": new(big.Int).Sub(new(big.Int).Lsh(big.NewInt(1), 256), big.NewInt(1)),
+		"negative":          big.NewInt(-5),
+		"2^256 (257 bits)":  new(big.Int).Lsh(big.NewInt(1), 256),
+		"2^300":             new(big.Int).Lsh(big.NewInt(1), 300),
 	} {
 		src := &hunt16Balance{Amount: v}
 
